@@ -96,7 +96,10 @@ def check_case(case) -> Result:
     if where == "pb":
         p = pb
     elif where == "pb-":
-        p = math.nextafter(pb, 0.0)
+        # just below the bubble point, but beyond the rounding of p_b and Rs(p) themselves (a few ulp): within an
+        # ulp or two of the branch point the parent's value is decided by rounding (e.g. a clamp Rs <= Rsi), so
+        # "the derivative of the parent" is not a meaningful reference there
+        p = pb * (1.0 - (1e-12, 1e-9, 1e-7)[int(case["frac"] * 3) % 3])
     elif where == "pb+":
         p = math.nextafter(pb, math.inf)
     elif where == "below":
